@@ -526,6 +526,9 @@ func (P *Program) expandTemplates() {
 		sort.Slice(fns, func(i, j int) bool { return fns[i].String() < fns[j].String() })
 		for _, fn := range fns {
 			key := t.Pkg + "::" + fn.RelString(fn.Pkg.Pkg)
+			if _, isExtern := P.specs.ByKey["::"+fn.String()]; isExtern {
+				continue // abstracted by an assumed (extern-style) contract: not swept
+			}
 			if ex, ok := P.specs.ByKey[key]; ok {
 				if ex.has("no-template") {
 					continue
